@@ -151,22 +151,22 @@ end C06
 
 /-! ## one reachability notion for "any sequence of operations, re-imports or bridge conversions"
 
-`Reach` (`Reach.lean`): the fresh store; any diagram operation of `OpsModel` on operands that are
+`StoreReach` (`Reach.lean`): the fresh store; any diagram operation of `OpsModel` on operands that are
 handles of the store; `Bdd::from(nodes)` of the node list (plain, and with the bookkeeping of
 `variablelist`/`adhoccounting`); serde export → import → `fix_import`; bridge replay of an ordered
 dump — in ANY interleaving. -/
 namespace C06
 
 /-- **every reachable store is well formed** (reduced, ordered, duplicate free, exact unique table,
-sound memo tables). Preconditions carried by the constructors of `Reach`, not by this theorem:
+sound memo tables). Preconditions carried by the constructors of `StoreReach`, not by this theorem:
 operands must be handles of the store; `.var v` needs `v < VBOT = usize::MAX - 1` (the two largest
 values are the terminals' pseudo-variables: the code's `Var::TOP`/`Var::BOT`); a bridge dump must be
 ordered (`DumpOK`: children first, larger variables below — what biodivine's export guarantees). -/
-theorem reach_wf {s : Store} (r : Reach s) : WF s := reach_wf_aux r
+theorem reach_wf {s : Store} (r : StoreReach s) : WF s := reach_wf_aux r
 
 /-- … hence canonical: on every reachable store two handles are equal exactly when they denote
 the same Boolean function, and a handle is ⊤ (⊥) iff its function is valid (unsatisfiable) -/
-theorem reach_same_handle_iff_same_function {s : Store} (r : Reach s) (a b : Nat)
+theorem reach_same_handle_iff_same_function {s : Store} (r : StoreReach s) (a b : Nat)
     (ha : a < s.nodes.size) (hb : b < s.nodes.size) :
     (a = b ↔ ∀ σ, eval s a σ = eval s b σ) ∧
     (a = 1 ↔ ∀ σ, eval s a σ = true) ∧ (a = 0 ↔ ∀ σ, eval s a σ = false) := by
@@ -182,20 +182,20 @@ theorem reach_same_handle_iff_same_function {s : Store} (r : Reach s) (a b : Nat
     · intro e σ; rw [e σ, eval_zero]
 
 /-- … and the node table is reduced, ordered and duplicate free, so both checkers accept it -/
-theorem reach_table {s : Store} (r : Reach s) : TableWF s.nodes ∧ wfCheckFast s.nodes = true :=
+theorem reach_table {s : Store} (r : StoreReach s) : TableWF s.nodes ∧ wfCheckFast s.nodes = true :=
   ⟨(reach_wf r).table, wfCheckFast_complete _ (reach_wf r).table⟩
 
-/-- `runOps` from the fresh store stays inside `Reach` (so the earlier theorems of this file are
+/-- `runOps` from the fresh store stays inside `StoreReach` (so the earlier theorems of this file are
 instances) -/
-theorem runOps_reach : ∀ (ops : List Op) (s : Store) (hist : List Nat), Reach s →
-    (∀ t ∈ hist, t < s.nodes.size) → opsValid ops hist.length → Reach (runOps ops s hist).1 := by
+theorem runOps_reach : ∀ (ops : List Op) (s : Store) (hist : List Nat), StoreReach s →
+    (∀ t ∈ hist, t < s.nodes.size) → opsValid ops hist.length → StoreReach (runOps ops s hist).1 := by
   intro ops
   induction ops with
   | nil => intro s hist r _ _; exact r
   | cons o ops ih =>
     intro s hist r hv ho
     have g := stepOp_good s hist _ o (reach_wf r) (HistOK.ofValid s hist hv) ho.1
-    apply ih _ _ (Reach.op s hist o r hv ho.1)
+    apply ih _ _ (StoreReach.op s hist o r hv ho.1)
     · intro t ht
       rcases List.mem_append.mp ht with h | h
       · exact Nat.lt_of_lt_of_le (hv t h) g.ext.1
@@ -205,12 +205,12 @@ theorem runOps_reach : ∀ (ops : List Op) (s : Store) (hist : List Nat), Reach 
 /-- non-vacuity, using every constructor once: build x0 and ¬x0 in the fresh store, export and
 re-import the object, rebuild it from its node list (both variants), then replay the dump
 ⊥, ⊤, x0 of a foreign library into it: the result is reachable, hence well formed and canonical -/
-example : ∃ s : Store, Reach s ∧ WF s := by
-  have r1 : Reach (runOps [.var 0, .not 2] Store.init [0, 1]).1 :=
-    runOps_reach _ _ _ Reach.fresh (by simp [Store.init]) (by simp [opsValid, Op.valid, VBOT])
-  have r2 := Reach.reimport ⟨_, #[], {}⟩ r1
-  have r3 := Reach.rebuildBook _ (Reach.rebuild _ r2)
-  have r4 := Reach.bridge _ _ r3 dump3_ok (by simp)
+example : ∃ s : Store, StoreReach s ∧ WF s := by
+  have r1 : StoreReach (runOps [.var 0, .not 2] Store.init [0, 1]).1 :=
+    runOps_reach _ _ _ StoreReach.fresh (by simp [Store.init]) (by simp [opsValid, Op.valid, VBOT])
+  have r2 := StoreReach.reimport ⟨_, #[], {}⟩ r1
+  have r3 := StoreReach.rebuildBook _ (StoreReach.rebuild _ r2)
+  have r4 := StoreReach.bridge _ _ r3 dump3_ok (by simp)
   exact ⟨_, r4, reach_wf r4⟩
 
 end C06
